@@ -124,7 +124,7 @@ class Check:
                 return 2
         rc = 0
         if violations:
-            os.makedirs(os.path.join(VERIF, "reports"), exist_ok=True)
+            os.makedirs(os.path.join(VERIF, "reports"), exist_ok=True)      # (git-ignored scratch output)
             h = hashlib.sha256(json.dumps(violations, sort_keys=True).encode()).hexdigest()[:10]
             rp = os.path.join(VERIF, "reports", "%s-%s.json" % (self.prop, h))
             with open(rp, "w") as fh:
@@ -168,8 +168,9 @@ class Check:
             "wall_s": round(time.time() - self.t0, 2),
             "violations": nviol,
         }
-        os.makedirs(os.path.join(VERIF, "evidence"), exist_ok=True)
-        with open(os.path.join(VERIF, "evidence", "%s.json" % self.prop), "w") as fh:
+        evdir = os.environ.get("VERIF_EVIDENCE_DIR") or os.path.join(VERIF, "evidence")     # (the self-test redirects mutant runs)
+        os.makedirs(evdir, exist_ok=True)
+        with open(os.path.join(evdir, "%s.json" % self.prop), "w") as fh:
             json.dump(ev, fh, indent=1)
 
 
